@@ -276,6 +276,9 @@ class IMAPConnection:
 
     async def start_tls(self) -> None:
         ssl_context = self.config.ssl_context
+        # anything the client sent in plain text ahead of the handshake must
+        # not be read as if it had arrived protected
+        self.reader._buffer.clear()  # type: ignore
         await self.writer.start_tls(ssl_context)
         self._print('%s <->| %s', '<TLS handshake>')
 
